@@ -1077,16 +1077,5 @@ def run_case(r, obs):
         else:
             raise ValueError(r["k"])
     finally:
-        # The worker keeps only the first 200 violations: one mechanism that fires in every
-        # history must not crowd out a different one.  Keep the first witness per mechanism
-        # and case, and at most MAX_PER_MECH per worker process; the rest is counted.
-        kept, seen = [], set()
-        for v in obs.violations:
-            m = v["mech"]
-            if m in seen or _REPORTED.get(m, 0) >= MAX_PER_MECH:
-                obs.count("violations_counted_not_listed")
-                continue
-            seen.add(m)
-            _REPORTED[m] = _REPORTED.get(m, 0) + 1
-            kept.append(v)
-        obs.violations[:] = kept
+        from rv.props import _out_stubs
+        _out_stubs.limit_repeats(obs, _REPORTED, MAX_PER_MECH)
